@@ -346,10 +346,7 @@ def _status(obs):
     e = obs['exc']
     if e is None:
         return 'NotListening' if obs['consumed'] == 0 else 'Returned'
-    if e == 'UnicodeDecodeError':
-        return '(Killed EUnicodeDecode)'
-    if e == 'TypeError':
-        return '(Killed ETypeError)'
+    # since fix 8298523 nothing may escape run(); the model has no such state
     raise ValueError(f'run() ended with an exception the model does not know: {e}')
 
 
@@ -528,40 +525,12 @@ def _needs_escape(s):
     return any(c in '"\\' or ord(c) < 0x20 for c in s)
 
 
-def _known_killer(case, obs, failure):
-    if failure['class'] != 'killed' or failure.get('killer') is None:
-        return False
-    data = bytes.fromhex(failure['killer'])[:1024]
-    try:
-        text = data.decode('utf-8')
-    except UnicodeDecodeError:
-        return failure['exc'] == 'UnicodeDecodeError'
-    if failure['exc'] != 'TypeError':
-        return False
-    try:
-        v = json.loads(text)
-    except ValueError:
-        return False
-    if v is None or isinstance(v, (bool, int, float)):
-        return True
-    if isinstance(v, str):
-        return 'SECoP' in v
-    if isinstance(v, list):
-        return 'SECoP' in v
-    return False
-
-
 FINDING_CLASSIFIERS = {
-    # only JSONDecodeError is caught in run(): invalid UTF-8, a JSON scalar, a JSON string containing SECoP
-    # or a JSON array containing "SECoP" raise UnicodeDecodeError / TypeError out of the thread
-    'killed_by_non_object_or_bad_utf8': _known_killer,
     # budgeting compares the raw description bytes with an overshoot that counts the escaped bytes
     'disabled_by_escape_heavy_description': lambda case, obs, f: (
         f['class'] == 'disabled-though-identity-fits' and _needs_escape(case['desc'] or '')),
-    # the start-up broadcast is sent although the constructor found that nothing fits
-    'oversize_announcement_when_disabled': lambda case, obs, f: (
-        f['class'] == 'oversize' and f.get('startup') is True and f.get('disabled') is True
-        and obs.get('enabled') is False),
+    # repaired in /repo (the oracle reports them again if they return):
+    #   killed-by-datagram (fix 8298523), oversize-announcement-when-disabled (fix d6d9c1c)
 }
 
 
@@ -746,7 +715,7 @@ def _rand_jsonish(rng):
     return rng.choice(vals).encode()
 
 
-def gen_dgrams(rng, killers=True):
+def gen_dgrams(rng, hostile=True):
     n = rng.choice([0, 1, 2, 3, 4, 5, 7])
     res = []
     for _ in range(n):
@@ -761,7 +730,7 @@ def gen_dgrams(rng, killers=True):
             data = _rand_jsonish(rng)
         elif k < 0.80:
             data = rng.choice(OVERSIZED)
-        elif not killers:
+        elif not hostile:
             data = rng.choice(REQUESTS + OTHER_OBJECTS)
         elif k < 0.88:
             data = rng.choice(OTHER_JSON)
@@ -794,7 +763,7 @@ def gen_ifaces(rng):
 def rand_case(rng):
     eid, version, desc = gen_strings(rng)
     return {'eid': eid, 'version': version, 'desc': desc, 'ifaces': gen_ifaces(rng),
-            'bcast': rng.random() < 0.7, 'dgrams': gen_dgrams(rng, killers=rng.random() < 0.5)}
+            'bcast': rng.random() < 0.7, 'dgrams': gen_dgrams(rng, hostile=rng.random() < 0.8)}
 
 
 def exhaustive_cases():
